@@ -140,10 +140,11 @@ type nodeState struct {
 	// restarted as a non-candidate with the filter afterwards
 	candidate bool
 	useFilter bool
-	blocked bool
-	seeding atomic.Bool // the node acts as primary to create an orphan database
-	streams atomic.Int64
-	dbs     map[string]*dbState // pagers (on whichever node commits)
+	blocked   bool
+	seeding   atomic.Bool // the node acts as primary to create an orphan database
+	streams   atomic.Int64
+	mark      int64               // value of streams after the previous step
+	dbs       map[string]*dbState // pagers (on whichever node commits)
 }
 
 func (ns *nodeState) passes(db string) bool {
@@ -272,6 +273,12 @@ func Run(sc Script, cfg Config, dir string) (res Result) {
 		e.cl.Lease.AllowOnly(e.nodes["n1"].cn.URL)
 		if err := e.cl.WaitPrimary("n1", 20*time.Second); err != nil {
 			res.Infra = err.Error()
+		}
+		if cfg.Pace > 0 {
+			// paced scripts start with both replicas streaming (free-running ones start at once)
+			for _, n := range []string{"n2", "n3"} {
+				e.awaitStream(e.nodes[n], 0)
+			}
 		}
 	}
 	for ; res.Infra == "" && !e.failed() && i < len(sc.H); i++ {
@@ -679,18 +686,32 @@ func (e *engine) caughtUp(ns *nodeState) bool {
 	return true
 }
 
+// awaitStream waits (bounded, never judged) until the node has opened a stream after the `since`-th.
+func (e *engine) awaitStream(ns *nodeState, since int64) {
+	if ns.blocked {
+		return
+	}
+	for i := 0; i < 600 && ns.streams.Load() <= since; i++ {
+		time.Sleep(500 * time.Microsecond)
+	}
+}
+
 // pace waits (bounded, never judged) so that different scripts exercise different interleavings of the
 // model's Connect / Take / Send / Deliver with the control actions.
 func (e *engine) pace(st Step) {
-	switch e.cfg.Pace {
-	case 1:
-		if st.A == "Unblock" || st.A == "Restart" {
-			ns := e.nodes[st.G.N]
-			before := ns.streams.Load()
-			for i := 0; i < 400 && ns.streams.Load() == before && ns.name != "n1"; i++ {
-				time.Sleep(500 * time.Microsecond)
+	if e.cfg.Pace >= 1 && (st.A == "Unblock" || st.A == "Restart") {
+		if st.G.N == "n1" {
+			for _, n := range []string{"n2", "n3"} {
+				e.awaitStream(e.nodes[n], e.nodes[n].mark)
 			}
+		} else {
+			e.awaitStream(e.nodes[st.G.N], e.nodes[st.G.N].mark)
 		}
+	}
+	for _, ns := range e.nodes {
+		ns.mark = ns.streams.Load()
+	}
+	switch e.cfg.Pace {
 	case 2:
 		for i := 0; i < 600; i++ {
 			done := true
